@@ -526,6 +526,10 @@ class World:
                 from spec_classes.types import KeyedList, KeyedSet
 
                 return (KeyedList if k == "kl" else KeyedSet)([self.realize(x) for x in v[2]])
+            if k == "$obj":
+                import math
+
+                return {"func": _module_level_function, "func2": _module_level_function2, "class": int, "class2": str, "module": math}[v[1]]
             if k in ("klraw", "ksraw"):
                 from spec_classes.types import KeyedList, KeyedSet
 
@@ -590,8 +594,15 @@ class World:
                     world.tick("post_copy", "M")
 
                 ns["__post_copy__"] = __post_copy__
-            for extra_name, extra in (c.get("namespace") or {}).items():
-                ns[extra_name] = extra
+            if c.get("helper_method"):
+                def helper(self):
+                    return 1
+
+                def helper2(self):
+                    return 2
+
+                ns["helper"] = helper
+                ns["helper2"] = helper2
             if ann:
                 ns["__annotations__"] = ann
             ns["__module__"] = "vf.generated"
@@ -663,6 +674,14 @@ class World:
             if how:
                 return how
         return None
+
+
+def _module_level_function(x=None):
+    return x
+
+
+def _module_level_function2(x=None):
+    return x
 
 
 _VT = {}
